@@ -109,6 +109,7 @@ type Exec struct {
 	callerFr *Frame // set by callFn around runFunc: the frame that inlines the callee
 	snapRefs []*Term // backing arrays that are read-only snapshots of arrays nested in structs
 	snapInit bool
+	snapFams map[string]bool
 	c         *Ctx
 	prog      *ssa.Program
 	fset      *token.FileSet
